@@ -170,6 +170,11 @@ impl Report {
         let e = m.entry(v.sig()).or_insert((0, v));
         e.0 += 1;
     }
+    pub fn violation_n(&self, v: Violation, n: u64) {
+        let mut m = self.viols.lock().unwrap();
+        let e = m.entry(v.sig()).or_insert((0, v));
+        e.0 += n;
+    }
     pub fn set_extra(&self, k: &str, v: Value) {
         self.extra.lock().unwrap().insert(k.into(), v);
     }
